@@ -56,7 +56,7 @@ def apply_unfolders(sid: str, unfolders: List[Callable]) -> List[Sid]:
         done = func(result)
         result = done
 
-    return sorted(set(result))
+    return sorted(dict.fromkeys(result))  # unique, in a stable order (a set would order equal strings by hash)
 
 
 @cache
